@@ -63,6 +63,9 @@ func (r *Runner) walk() ev {
 	d["colls"] = names
 	want := expectedDir(r.cfg.Plain, r.cfg.Lc)
 	d["want"] = want
+	if r.t.Aux {
+		d["xwant"] = auxDir(r.cfg.Lc)
+	}
 	dir := filepath.Join(r.root, want)
 	ents, err := os.ReadDir(dir)
 	d["exists"] = err == nil
